@@ -273,6 +273,27 @@ const k8sIntermediateSymlinkDir = "..dir"
 // intermediate symlink (see the description above).
 const k8sDataSymlink = "..data"
 
+// resolveCfgPath follows the symlinks of cleanedPath. When the file itself is
+// missing (e.g. between a delete and a recreate) it still resolves the
+// directory that will hold it, so that directory can be watched.
+func resolveCfgPath(cleanedPath string) (string, bool) {
+	if p, err := filepath.EvalSymlinks(cleanedPath); err == nil {
+		return p, true
+	}
+	target, err := os.Readlink(cleanedPath)
+	if err != nil {
+		return "", false
+	}
+	if !filepath.IsAbs(target) {
+		target = filepath.Join(filepath.Dir(cleanedPath), target)
+	}
+	dir, err := filepath.EvalSymlinks(filepath.Dir(target))
+	if err != nil {
+		return "", false
+	}
+	return filepath.Join(dir, filepath.Base(target)), true
+}
+
 func (ws *WatchingSource) watchLoop(
 	ctx context.Context,
 	t *dials.Type,
@@ -324,6 +345,14 @@ MAINLOOP:
 			return
 		}
 
+		// Re-resolve the path and watch its (possibly new) directory before
+		// reading, so a change made right after the read isn't missed.
+		oldResolvedCfgDir := filepath.Dir(resolvedCfgPath)
+		if newResolvedPath, ok := resolveCfgPath(cleanedPath); ok {
+			resolvedCfgPath = newResolvedPath
+		}
+		ws.updateDirWatches(cleanedPathDir, oldResolvedCfgDir, filepath.Dir(resolvedCfgPath))
+
 		newVal, parseErr := ws.Value(ctx, t)
 
 		configExists := !os.IsNotExist(parseErr)
@@ -346,11 +375,6 @@ MAINLOOP:
 			// the config doesn't exist; just resume the loop.
 			continue
 		}
-		oldResolvedCfgDir := filepath.Dir(resolvedCfgPath)
-		// If the config exists, update the new symlink-path
-		if newResolvedPath, symlinkErr := filepath.EvalSymlinks(cleanedPath); symlinkErr == nil {
-			resolvedCfgPath = newResolvedPath
-		}
 		if !watchingFile {
 			if addErr := ws.watcher.Add(cleanedPath); addErr != nil {
 				ws.logger.Printf("failed to add watcher for path %q: %s",
@@ -359,8 +383,6 @@ MAINLOOP:
 				watchingFile = true
 			}
 		}
-		ws.updateDirWatches(cleanedPathDir, oldResolvedCfgDir, filepath.Dir(resolvedCfgPath))
-
 		switch t := parseErr.(type) {
 		case nil:
 			// no error, report upward
